@@ -33,7 +33,11 @@ TypedValue evaluate_ternary_typed(
 
     // 単純な型（数値、文字列）の場合は直接評価
     if (selected_type.type_info == TYPE_INT ||
-        selected_type.type_info == TYPE_BOOL) {
+        selected_type.type_info == TYPE_BOOL ||
+        selected_type.type_info == TYPE_LONG ||
+        selected_type.type_info == TYPE_SHORT ||
+        selected_type.type_info == TYPE_TINY ||
+        selected_type.type_info == TYPE_CHAR) {
         TypedValue result = evaluate_typed_expression_callback(selected_node);
         last_typed_result = result;
         return result;
